@@ -559,6 +559,18 @@ def _pass_over(func, expr):
     if ew is not None and isinstance(ew.node, ast.Name):
         defs = [st for st in walk_no_nested(func.node) if isinstance(st, ast.Assign) and len(st.targets) == 1
                 and isinstance(st.targets[0], ast.Name) and st.targets[0].id == ew.node.id]
+        if len(defs) == 1 and isinstance(defs[0].value, ast.List) and not defs[0].value.elts:
+            # a list filled by an append loop: the same pass written out
+            from ..util import element_cases, Elementwise
+            ec = element_cases(func.node, ew.node)
+            if ec is not None:
+                src, tgt, cases, filt = ec
+                conditional = any(c != ('const', True) for c, v in cases)
+                srcw = elementwise(ast.parse(src, mode='eval').body, func.node)
+                funcs = tuple(unparse(c_.func) for c, v in cases for c_ in ast.walk(v) if isinstance(c_, ast.Call))
+                if srcw is not None:
+                    return Elementwise(srcw.source, srcw.node, srcw.filtered or filt or conditional or ew.filtered, srcw.reordered or ew.reordered,
+                                       srcw.funcs + funcs + ew.funcs)
         if len(defs) == 1:
             inner = elementwise(defs[0].value, func.node)
             if inner is not None:
